@@ -134,7 +134,7 @@ func init() {
 		}
 		peers := []string{"203.0.113.9:5555", "10.0.0.1:443", "@"}
 		for ci := 0; ci < nconf; ci++ {
-			cs := &c04Case{ID: ci, Tokens: []string{"t1", "t2"}, Trusted: []string{"10.0.0.0/8", "192.168.7.7"}}
+			cs := &c04Case{ID: ci, Tokens: []string{"t1", "t2"}, Trusted: []string{"10.0.0.0/8", "192.168.7.7", "2001:db8::1"}}
 			cs.Keys = []c04Key{
 				{"k1", "t1", "", subset(50), false}, {"k2", "t1", "", subset(50), false}, {"k3", "t2", "", subset(70), r.chance(60)},
 				{"kn", "", "", subset(70), false}, {"kx", "tX", "", subset(70), false},
@@ -174,7 +174,7 @@ func init() {
 					fmt.Fprintf(&sb, "  %s:\n    nickname: %s\n    roles: [%s]\n", fp, cl.Cert, strings.Join(cl.Roles, ", "))
 				}
 			}
-			sb.WriteString("server:\n  trustedproxies: [\"10.0.0.0/8\", \"192.168.7.7\"]\n")
+			sb.WriteString("server:\n  trustedproxies: [\"10.0.0.0/8\", \"192.168.7.7\", \"2001:db8::1\"]\n")
 			p := filepath.Join(c.scratch, "c04.yml")
 			os.WriteFile(p, []byte(sb.String()), 0o644)
 			cfg, err := config.ReadFile(p)
@@ -210,6 +210,8 @@ func init() {
 				{peers[2], "", []string{"198.51.100.8", "192.168.7.7"}, "leafA"}, {peers[1], "", []string{"198.51.100.7"}, ""},
 				{peers[1], "leaf1", []string{"8.8.8.8, bogus, 10.1.1.1"}, "leaf2"}, {"192.168.7.7:99", "", []string{" 198.51.100.9 ,"}, "leafA"},
 				{"192.168.7.8:99", "leaf1", []string{"198.51.100.9"}, "leaf2"},
+				{"[2001:db8::1]:99", "leaf1", []string{"198.51.100.9"}, "leaf2"}, {"[2001:db8::2]:99", "leaf1", []string{"198.51.100.9"}, "leaf2"},
+				{"[2001:db8:ffff::66]:99", "", []string{"198.51.100.9"}, "leaf2"},
 			}
 			for _, id := range idents {
 				var reqs []c04Req
@@ -305,14 +307,14 @@ func init() {
 			CertSrc string   `json:"cert_src"` // tls hdr none
 		}
 		r := &rng{s: c.seed ^ 0x1b}
-		mw, err := realip.Middleware([]string{"10.0.0.0/8", "192.168.7.7", "fd00::/8"})
+		mw, err := realip.Middleware([]string{"10.0.0.0/8", "192.168.7.7", "fd00::/8", "2001:db8::1"})
 		if err != nil {
 			return err
 		}
 		now := time.Now()
 		tlsCert, _ := mkCert("tls", 1, nil, nil, false, nil, now.Add(-time.Hour), now.Add(time.Hour))
 		hdrCert, _ := mkCert("hdr", 2, nil, nil, false, nil, now.Add(-time.Hour), now.Add(time.Hour))
-		pool := []string{"10.0.0.1", "10.9.9.9", "192.168.7.7", "192.168.7.8", "203.0.113.9", "198.51.100.7", "fd00::1", "2001:db8::1", "bogus", "", "@"}
+		pool := []string{"10.0.0.1", "10.9.9.9", "192.168.7.7", "192.168.7.8", "192.168.7.6", "203.0.113.9", "198.51.100.7", "fd00::1", "2001:db8::1", "2001:db8::2", "2001:db8:ffff::66", "2001:db9::1", "11.0.0.1", "bogus", "", "@"}
 		n := 600
 		if c.tier == "thorough" {
 			n = 6000
